@@ -90,6 +90,22 @@ func c02Crash(j *orch.Job, r *orch.Result) error {
 		}
 		return vdriver.Proceed, 0
 	}})
+	if p.Fail && p.K <= 0 {
+		// "a block fails" because factomd does: the first request for the block's directory block (K == 0) or for
+		// one of its entries (K == -1) is answered with an error, once
+		var once int32
+		n.Fake.SetFault(func(rq harness.Req) harness.Fault {
+			if rq.Cur != p.Block {
+				return harness.Fault{}
+			}
+			if (p.K == 0 && rq.Method == "dblock-by-height" && rq.Height == p.Block) || (p.K == -1 && rq.Method == "raw-data" && rq.Seq%3 == 0) {
+				if atomic.CompareAndSwapInt32(&once, 0, 1) {
+					return harness.Fault{Kind: harness.RPCError}
+				}
+			}
+			return harness.Fault{}
+		})
+	}
 	n.Run()
 	if p.Fail {
 		// the block fails once; the daemon then goes on for two blocks (or stops: crash-stop)
@@ -342,6 +358,16 @@ func checkC02(c *Ctx) *orch.Outcome {
 		if c.Thorough() || pt.k == 1 || pt.k == len(rm.Profiles[pt.b].Stmts) || rng.Intn(6) == 0 {
 			pt.fail = true
 			pts = append(pts, pt)
+		}
+	}
+	// ... and because factomd fails while the block's data is fetched
+	for _, b := range rm.Special {
+		for _, k := range []int{0, -1} {
+			what := "dblock-by-height"
+			if k == -1 {
+				what = "raw-data"
+			}
+			pts = append(pts, point{b, k, false, false, StmtInfo{K: k, Kind: "upstream", SQL: what + " answered with a JSON-RPC error"}, rm.Profiles[b].Label, true})
 		}
 	}
 	var crashJobs, verifyJobs []orch.Job
